@@ -539,6 +539,10 @@ var CDXLifecycles = []sbom.DocumentType_SBOMType{sbom.DocumentType_DESIGN, sbom.
 func IDCdx(r *rand.Rand) string {
 	for {
 		var s string
+		if r.Intn(12) == 0 {
+			// ordinary identifiers that contain fragments of the marker of generated ones, or reserved-looking words
+			return Pick(r, []string{"lib-automake", "SPDXRef-Package-autoconf", "x-auto--1", "my-auto", "auto--x", "protobom", "protobomx-auto--1", "a--b-auto", "node-auto-", "-auto"}) + Pick(r, []string{"", "", IDSpdx(r)[:1]})
+		}
 		switch r.Intn(3) {
 		case 0:
 			s = IDSpdx(r)
